@@ -1,4 +1,5 @@
 CFG = {
+    "coq_crosscheck": ["c18"], "coq_crosscheck_n": 100,
         "group": "c18",
         "level": "proof",
         "coq_targets": ["Properties/C18.vo"],
